@@ -101,6 +101,51 @@ CLAIMED = {
    note=COMMON_NOTE + " The 3 x 929 bar patterns are pinned from the tree at the start of the task (tools/genpdftable.py) and admitted after TLC checked every structural law; "
         "an error already present there that respects all laws would not be noticed.",
    technique="TLA+ model checking of table laws and conversions + trace validation with a TLA+ reference reader (TLC)", ref="5/C04"),
+ "C10": dict(
+   text="Acceptance is a conjunct of every family's trace specification: the result shape must be exactly ok or error (panic, timeout, both and neither are events no action "
+        "allows), ok implies not MustReject and error implies not MustAccept, where the predicates are the TLA+ Representable definitions (exact for the 1-D codes, QR "
+        "capacity tables and DataMatrix ASCII length; two-sided for Aztec and PDF417 whose capacity depends on a compaction heuristic). TLC model-checks that these "
+        "predicates are well defined at every boundary (480 QR capacity cells, 24 DataMatrix sizes, EAN check automaton, Codabar/2-of-5 acceptance, Aztec layer rule, "
+        "PDF417 dimensions). Outcome-only events (about 16k quick) cover every entry point x each of the 256 byte values alone and embedded, special runes and truncated "
+        "UTF-8, lengths 0/1/capacity/capacity+1 for every QR version x level x mode and DataMatrix size, all security levels 0..255, layer requests -6..34, percentages.",
+   note=COMMON_NOTE + " 'Never hangs' is evidenced only by a 30 s per-call deadline.", technique="TLA+ acceptance predicates model-checked at their boundaries + trace validation of call outcomes (TLC)", ref="5/C10"),
+ "C11": dict(
+   text="Contract.tla states the rendering contract (origin, size equal to the pixel matrix and to a size the symbology's reader accepts, every pixel foreground or background "
+        "of the scheme in force, ColorScheme()/ColorModel() = that scheme, kind and dimensionality, Content()) and 'the module pattern does not depend on the colour "
+        "scheme' as an invariant over the state variable memo keyed without the scheme. Every family's trace specification evaluates it on all eleven encoder families x "
+        "plain / WithColor variants x colour schemes over Gray, Gray16, RGBA, NRGBA, CMYK and RGBA64 models (named library schemes, fixed schemes, seeded random ones, a "
+        "scheme whose model differs from its colours' types) x representative contents of the size classes.",
+   note=COMMON_NOTE, technique="trace validation against a TLA+ contract with a handle/memo state (TLC)", ref="5/C11"),
+ "C12": dict(
+   text="The readers recover the declared strength from the symbol itself and count/validate the check words: QR level from both BCH-valid format copies = requested level and "
+        "every block de-interleaved with the ISO (version, level) row is a Reed-Solomon codeword; PDF417 level from the row indicators of every row = requested level with "
+        "2^(level+1) valid check words; Aztec check words x word size >= floor(data bits x pct / 100) with a Reed-Solomon-valid mode message agreeing with the size; "
+        "DataMatrix ECC 200 check-word count of its size with all blocks valid. Inputs: QR versions x levels, PDF417 levels 0..8 x sizes, Aztec percentages x payloads x "
+        "layer requests, all DataMatrix sizes. Model phase: MC_QRFormat (format words decode uniquely, block-table laws), MC_Aztec (layer rule keeps the percentage), MC_PDF417.",
+   note=COMMON_NOTE, technique="trace validation with TLA+ reference readers + model checking of the tables/rules (TLC)", ref="5/C12"),
+ "C13": dict(
+   text="MinVersion (QR), MinSizeIdx (DataMatrix, greedy digit pairing), the Aztec layer rule and the PDF417 dimension obligations are TLA+ definitions model-checked for totality "
+        "and monotonicity at every boundary. Size-only events sweep lengths across every capacity boundary of every QR version x level x mode (and Auto, which must use the "
+        "densest expressible mode) and every DataMatrix codeword count boundary; for Aztec each automatically sized symbol is followed by explicit requests for smaller "
+        "sizes, which must be refused (a property of pairs of events joined through the trace specification's state variable `auto`); PDF417 symbols are read and must "
+        "carry fewer pad codewords than columns within 2..30 rows and columns.",
+   note=COMMON_NOTE, technique="TLA+ size functions model-checked + trace validation of result sizes and event pairs (TLC)", ref="5/C13"),
+ "C15": dict(
+   text="Barcode.tla is the umbrella specification (handle table, caller buffers, learnt function memo, cache); TLC explores every order of encode / one-shot / mutate / re-read "
+        "with abstract encoders, and two deliberately wrong variants (a barcode that keeps a reference to the caller's buffer; output depending on the cache) must violate "
+        "Immutable / Deterministic; RSCache.tla shows results are independent of request order and interleaving. Recorded histories (quick: 3 x 250 encodes across all "
+        "symbologies and parameters in one process, sorted increasing/decreasing/shuffled so the caches grow in different orders, re-encodes of earlier arguments, re-reads "
+        "of handles, mutation of every byte of every []byte argument followed by re-reads, 50 encodes repeated in freshly started processes) are validated by TraceHist.tla.",
+   note=COMMON_NOTE + " Observations are SHA-256 digests of the pixel classes plus every accessor.", technique="TLA+ model checking of the umbrella spec (with negative variants) + trace validation of histories (TLC)", ref="5/C15"),
+ "C16": dict(
+   text="RSCache.tla (mutex-protected lazily grown cache, one action per step of the code; mutual exclusion, cache correctness, append-only, every call returns; negative model "
+        "without the lock) and Pipelines.tla (the three goroutine/channel pipelines of the QR encoder; termination and NoLeak under fairness; negative models where produced "
+        "!= consumed leak or zero-fill) are model-checked. Code -> spec: cmd/stress (-tags verif -race) runs mixed symbologies + Scale from cold start in fresh processes with "
+        "2..64 goroutines and GOMAXPROCS 1..16; hook events taken under the mutex, goroutine spawn/exit, produced/consumed byte counts, per-call digests vs the result alone, "
+        "goroutines left alive, race reports and watchdog timeouts are validated by TraceConc.tla. Spec -> code: TLC-simulated behaviours of RSCache.tla are imposed on real "
+        "goroutines sharing one encoder through the blocking hook and the observed lock/extend/unlock sequence and results are validated (TraceConc, TraceGF).",
+   note=COMMON_NOTE + " 'No data race' for memory the specification does not name is observed by the Go race detector; the scheduler is steered only at hook points.",
+   technique="TLA+ model checking of cache protocol and pipelines + trace validation of hooked concurrent executions + schedule replay (TLC)", ref="5/C16"),
 }
 
 NOT_YET = "check not built yet in this revision (planned per DESIGN.md section 10); not claimed"
